@@ -38,6 +38,9 @@ def run(tier, seed):
         rn = vlib.run_tlc("MC_FriProtocol", "MC_FriProtocol_FALSE_L%d" % L, workers=2, tag="MC_FriProtocol_F%d" % L)
         if rn.violation != "Sound":
             raise vlib.ToolError("self-test: FriProtocol without the remainder commitment check is not refuted (L=%d: %s)" % (L, rn.violation))
+    rf = vlib.run_tlc("MC_FriProtocol", "MC_FriProtocol_FIRSTONLY_L1", workers=2, tag="MC_FriProtocol_FO1")
+    if rf.violation != "Sound":
+        raise vlib.ToolError("self-test: FriProtocol with a remainder comparison at the first position only is not refuted (%s)" % rf.violation)
     log("[tlc] FriProtocol: %s behaviours (L=1,2,3); Sound/Complete/Order hold; refuted without the remainder-commitment check" % {L: len(b) for L, b in behaviours.items()})
     accepts = {p["s"]: p["accepts"] for p in r.printed if p.get("kind") == "strategy"}
     accepts["highdeg"] = False
@@ -71,13 +74,18 @@ def run(tier, seed):
                 d = 2 ** (s["ln"] + s["lb"])
                 cases.append({"id": i, "field": f, "hasher": h, "ext": e, "ln": s["ln"], "lb": s["lb"], "fold": s["fold"], "rem": s["rem"],
                               "q": 3 if b["rem"] == "adaptive" else min(80, d - 1), "poly": "random", "strategy": "model", "param": 0, "dup": False, "seed": seed + i,
-                              "f0": b["f0"], "layers": b["layers"], "openings": b["openings"], "rem_kind": b["rem"], "model_verdict": b["verdict"]})
+                              "f0": b["f0"], "layers": b["layers"], "openings": b["openings"], "rem_kind": b["rem"], "remc": b["remc"], "hit": b["hit"],
+                              "model_verdict": b["verdict"]})
                 i += 1
     obs = c15.run_cases(exe, cases, wd, "adversary")
     n = rej = skipped = 0
     per = {}
     for c, o in zip(cases, obs):
-        if "skip" in o:
+        if "skip" in o or (o.get("agree_all") and c.get("model_verdict") == "reject") or (
+                c.get("rem_kind") in ("adaptive", "other") and o.get("sent_is_committed")):
+            # not applicable to the schedule; the partial remainder happens to agree at every queried position; or the adaptive
+            # remainder coincides with the committed one (honest run with as many folded positions as coefficients): that
+            # run is the behaviour "committed" of the model, judged where it is enumerated
             skipped += 1
             continue
         n += 1
